@@ -131,7 +131,7 @@ mod verif_probe_tracker_kinds {
                 let shard = st.get_store(id as usize);
                 match shard.get(&id) {
                     None => (usize::MAX, 0),
-                    Some(tr) => (tr.get_attributes().visual_features_collected_count,
+                    Some(tr) => (if tr.get_observations(0).map(|o| o.iter().filter(|x| x.feature().is_some()).count()) == Some(tr.get_attributes().visual_features_collected_count) { tr.get_attributes().visual_features_collected_count } else { usize::MAX - 1 },
                                  tr.get_observations(0).and_then(|o| o.first()).and_then(|o| o.attr().as_ref()).and_then(|a| *a.own_area_percentage_opt()).map(|x| (x * 1000.0).round() as u32).unwrap_or(u32::MAX)),
                 }
             }
@@ -212,6 +212,7 @@ mod verif_probe_tracker_kinds {
                     }
                     feats.entry((*s, name)).or_default().push(d.feat.as_ref().map(|f| fbits(f)));
                     let gal = t.gallery(r.id);
+                    if gal.0 == usize::MAX - 1 { failures.push(format!("{} step={} scene={} detection #{}: tracker_kinds.reported_count_of_collected_features_equals_the_number_stored: track {} reports a count that differs from the number of appearance features it holds", ctx, step, s, k, name)); }
                     if visual {
                         // an own-area threshold is configured in every visual variant: the share stored with the newest observation is
                         // the library's own share of this detection among the detections of ITS scene in this call
